@@ -43,6 +43,9 @@ func runC13(c *ctx, jScaled int, shape string, rmax, n int) (tr c13trace) {
 			} else {
 				cur = c.rng.Intn(rmax + 1)
 			}
+		case "dip":
+			// a profile that spends a third of its time below zero
+			cur = rmax/2 - (k%30)*rmax/20
 		case "ramp":
 			cur = (k * rmax) / n
 		default:
@@ -69,7 +72,7 @@ func init() {
 		}
 		defer w.close()
 		js := []int{0, 1, 50, 100, 500, 1000, 1250, 2000, 3333, 5000, 7500, 9000, 9900, 9999, 10000, 15000, -2000}
-		shapes := []string{"constant", "bursty", "zeros", "ramp", "random"}
+		shapes := []string{"constant", "bursty", "zeros", "ramp", "random", "dip"}
 		reps := c.pick(1, 4)
 		n := c.pick(400, 800)
 		for rep := 0; rep < reps; rep++ {
@@ -93,6 +96,15 @@ func init() {
 					nn := n
 					if aj >= 10000 {
 						nn = 60 // unbounded drift allowed at >= 100 %: keep numbers small
+					}
+					if sh == "dip" && j != 0 {
+						// with jitter the time below zero builds up debt: keep it small enough for TLC's integers
+						if rmax > 10 {
+							rmax = 10
+						}
+						if nn > 120 {
+							nn = 120
+						}
 					}
 					w.write(runC13(c, j, sh, rmax, nn))
 				}
